@@ -391,6 +391,8 @@ func execIssuance(c *ctx, in ev) []ev {
 		return execVerifySeq(c, in)
 	case "TypeSweep":
 		return []ev{execTypeSweep(c, in)}
+	case "Endure":
+		return []ev{execEndure(c, in)}
 	case "RLSeq":
 		return execRLSeq(c, in)
 	case "RLEval":
@@ -794,6 +796,156 @@ func (w *verifyWorld) step(c *ctx, tm map[string]any, r *rand.Rand) ev {
 		}
 		e["ref_ok"] = bytes.Equal(fullEvaluate(w.suite, vkey, authInput(tok)), tok.Authenticator)
 		e["ok"] = w.verify(useOther, tok) == nil
+	})
+	return e
+}
+
+// execEndure: MANY honest issuances through the same long-lived objects (one issuer, one request object on its side,
+// one client), a refused request every few runs: run number 256, 257, 65 536 is like run number 1 - nothing counts
+// down, fills up or wraps around.
+func execEndure(c *ctx, in ev) ev {
+	t, n := gI(in, "t"), gI(in, "n")
+	r := newRand(c.seed, fmt.Sprintf("endure-%d", t))
+	e := ev{"op": "Endure", "t": t, "n": n, "done": 0, "first_bad": -1, "err": "", "panic": ""}
+	e["panic"] = guard(func() {
+		var run func(i int) error
+		switch t {
+		case 1:
+			k := p384Key(c.seed, "k1")
+			iss := type1.NewBasicPrivateIssuer(k)
+			obj := new(type1.BasicPrivateTokenRequest)
+			cl := type1.NewBasicPrivateClient()
+			run = func(i int) error {
+				if i%7 == 3 {
+					iss.Evaluate(&type1.BasicPrivateTokenRequest{TokenKeyID: iss.TokenKeyID()[31], BlindedReq: bytes.Repeat([]byte{0xff}, 49)})
+				}
+				st, err := cl.CreateTokenRequest(randBytes(r, 8), randNonce(r), iss.TokenKeyID(), iss.TokenKey())
+				if err != nil {
+					return err
+				}
+				if !obj.Unmarshal(append([]byte{}, st.Request().Marshal()...)) {
+					return fmt.Errorf("request does not decode")
+				}
+				resp, err := iss.Evaluate(obj)
+				if err != nil {
+					return err
+				}
+				tok, err := st.FinalizeToken(resp)
+				if err != nil {
+					return err
+				}
+				if iss.Verify(tok) != nil || !bytes.Equal(fullEvaluate(oprf.SuiteP384, k, authInput(tok)), tok.Authenticator) {
+					return fmt.Errorf("token does not verify")
+				}
+				return nil
+			}
+		case 5:
+			k := ristrettoKey(c.seed, "k1")
+			iss := type5.NewBatchedPrivateIssuer(k)
+			obj := new(type5.BatchedPrivateTokenRequest)
+			cl := type5.NewBatchedPrivateClient()
+			run = func(i int) error {
+				if i%7 == 3 {
+					bad := bytes.Repeat([]byte{0xff}, 32)
+					iss.Evaluate(&type5.BatchedPrivateTokenRequest{TokenKeyID: iss.TokenKeyID()[31], BlindedReq: [][]byte{bad, bad}})
+				}
+				nonces := [][]byte{randNonce(r)}
+				if i%5 == 0 {
+					nonces = append(nonces, randNonce(r), randNonce(r))
+				}
+				st, err := cl.CreateTokenRequest(randBytes(r, 8), nonces, iss.TokenKeyID(), iss.TokenKey())
+				if err != nil {
+					return err
+				}
+				if !obj.Unmarshal(append([]byte{}, st.Request().Marshal()...)) {
+					return fmt.Errorf("request does not decode")
+				}
+				resp, err := iss.Evaluate(obj)
+				if err != nil {
+					return err
+				}
+				toks, err := st.FinalizeTokens(resp)
+				if err != nil || len(toks) != len(nonces) {
+					return fmt.Errorf("finalize: %v (%d tokens)", err, len(toks))
+				}
+				for _, tok := range toks {
+					if iss.Verify(tok) != nil {
+						return fmt.Errorf("token does not verify")
+					}
+				}
+				return nil
+			}
+		case 2:
+			k := rsaKey(1)
+			iss := type2.NewBasicPublicIssuer(k)
+			obj := new(type2.BasicPublicTokenRequest)
+			cl := type2.NewBasicPublicClient()
+			run = func(i int) error {
+				if i%7 == 3 {
+					iss.Evaluate(&type2.BasicPublicTokenRequest{TokenKeyID: iss.TokenKeyID()[31], BlindedReq: bytes.Repeat([]byte{0xff}, 256)})
+				}
+				st, err := cl.CreateTokenRequest(randBytes(r, 8), randNonce(r), iss.TokenKeyID(), iss.TokenKey())
+				if err != nil {
+					return err
+				}
+				if !obj.Unmarshal(append([]byte{}, st.Request().Marshal()...)) {
+					return fmt.Errorf("request does not decode")
+				}
+				resp, err := iss.Evaluate(obj)
+				if err != nil {
+					return err
+				}
+				tok, err := st.FinalizeToken(resp)
+				if err != nil {
+					return err
+				}
+				return verifyPSS(&k.PublicKey, tok)
+			}
+		case 3:
+			w := newT3World(rsaKey(2), c.seed, map[string]string{"endure.example": "a", "other.example": "b"})
+			cache := &recCache{m: map[string]*type3.ClientState{}}
+			att := type3.NewRateLimitedAttester(cache)
+			secret := p384Scalar(c.seed, "endure-client")
+			var firstIdx []byte
+			run = func(i int) error {
+				if i%7 == 3 {
+					w.issuer.Evaluate([]byte{0, 3, 1, 2, 3})
+				}
+				blind := randScalar(r)
+				art, err := honestT3(w, secret, blind, randBytes(r, 8), randNonce(r), "endure.example")
+				if err != nil {
+					return err
+				}
+				if verifyPSS(w.issuer.TokenKey(), art.token) != nil {
+					return fmt.Errorf("token does not verify")
+				}
+				// the attester, too, sees every request: same client, same origin - the same ID every time
+				reg := new(type3.RateLimitedTokenRequest)
+				if !reg.Unmarshal(append([]byte{}, art.req...)) {
+					return fmt.Errorf("request does not decode")
+				}
+				if err := att.VerifyRequest(*reg, blind, art.clientKey, []byte("anon")); err != nil {
+					return fmt.Errorf("attester: %v", err)
+				}
+				idx, err := att.FinalizeIndex(art.clientKey, blind, art.blindedRK, []byte("anon"))
+				if err != nil {
+					return fmt.Errorf("attester index: %v", err)
+				}
+				if firstIdx == nil {
+					firstIdx = append([]byte{}, idx...)
+				} else if !bytes.Equal(idx, firstIdx) {
+					return fmt.Errorf("the anonymous issuer origin ID changed")
+				}
+				return nil
+			}
+		}
+		for i := 0; i < n; i++ {
+			if err := run(i); err != nil {
+				e["first_bad"], e["err"] = i, err.Error()
+				return
+			}
+			e["done"] = i + 1
+		}
 	})
 	return e
 }
@@ -2022,6 +2174,11 @@ func genIssuance(c *ctx, emit func(ev)) {
 			for _, ol := range ols {
 				run(3, 1, 32, ol, id)
 			}
+		}
+	}
+	if want("honest") { // C01: endurance - hundreds (thorough: tens of thousands) of honest runs through the same objects
+		for _, tn := range [][3]int{{1, 300, 66000}, {5, 300, 66000}, {2, 270, 3000}, {3, 270, 3000}} {
+			emit(ev{"op": "Endure", "t": tn[0], "n": c.tierFixed(tn[1], tn[2])})
 		}
 	}
 	if want("honest") || want("mutations") { // C01, C02: sequences through long-lived objects
